@@ -305,7 +305,10 @@ class Effects:
                 self.array_evidence.add(n.value.id)
             elif isinstance(n, ast.Attribute) and isinstance(n.value, ast.Name) and n.attr in ('shape', 'ndim', 'T', 'dtype', 'ravel', 'reshape'):
                 self.array_evidence.add(n.value.id)
-            elif isinstance(n, ast.Assign) and isinstance(n.value, ast.Call) and call_name(n.value) in VIEW_CALLS:
+            elif isinstance(n, ast.Assign) and isinstance(n.value, ast.Call) and (call_name(n.value) in VIEW_CALLS
+                                                                                 or (call_name(n.value) or '').split('.')[-1] in ('asarray', 'asanyarray', 'ascontiguousarray')
+                                                                                 or call_name(n.value) in self.identity_calls):
+                # the result of an as-array conversion IS an array (in-place arithmetic on it mutates, it does not rebind)
                 for t in n.targets:
                     if isinstance(t, ast.Name):
                         self.array_evidence.add(t.id)
